@@ -19,9 +19,15 @@
 //! the former NaN findings (F5, F29, F33, F36 NaN half, F37, F38, F39) are no longer classes of
 //! this property; their witnesses are kept as regression scenes that must render finite output.
 //! The classes left are the ones whose observable is a callback that does not return (F8, F34,
-//! F36 through a playback rate, F40).  F7 (the clock's tick loop) is repaired as well: `Clock::update`
+//! F36 through a playback rate).  F7 (the clock's tick loop) is repaired as well: `Clock::update`
 //! splits its timer with `floor` in constant time; clock speeds are drawn without restriction and the
 //! F7 witnesses are regression scenes (a callback that does not return there is a plain violation).
+//! So is F40 (`Transport::seek_to` wrapped a target into the loop region one loop length per
+//! iteration): the wrap is a remainder now; seek targets are drawn without restriction, the
+//! witnesses (`seek_to(1e300)`, `seek_by(+-1e300)` on looping static and streaming sounds) are
+//! regression scenes, and the static ones are also replayed against C04's sound model (`CSnd`: they
+//! must return with the output and position the model predicts), the streaming ones against the
+//! transport model (`CSeek`: where the decoder lands).
 //!
 //! Attribution of a failure to a known finding is COUNTERFACTUAL: the scene must contain the
 //! finding's trigger (a predicate on the scene data, see `classes()`), the observed failure must be
@@ -63,7 +69,6 @@ use std::time::Duration;
 const HZ_RATE: &str = "playback_rate_loop_diverges";
 const HZ_RATE_COST: &str = "playback_rate_cost_unbounded";
 const HZ_EASING: &str = "easing_power_negative";
-const HZ_SEEK: &str = "seek_beyond_loop_cost_unbounded";
 const HZ_RESYNC: &str = "resync_reallocates_delay_lines_in_callback";
 
 // ------------------------------------------------------------------------------------------------
@@ -983,26 +988,6 @@ fn neut_easing(sc: &mut Scene) -> bool {
 	});
 	hit
 }
-/// F40: seek_to / seek_by far beyond a loop region (Transport::seek_to subtracts the loop length once per iteration)
-fn neut_seek(sc: &mut Scene) -> bool {
-	let looping = sc.ops.iter().any(|o| match o {
-		Op::Play(p) => p.looped.is_some(),
-		Op::Cmd(c) => c.which % 10 == 9,
-		_ => false,
-	});
-	let mut hit = false;
-	if looping {
-		for op in sc.ops.iter_mut() {
-			if let Op::Cmd(c) = op {
-				if c.seek.abs() > 1e3 {
-					c.seek = 0.01;
-					hit = true;
-				}
-			}
-		}
-	}
-	hit
-}
 const TWO53: f64 = 9007199254740992.0;
 /// F8: a playback rate whose per-frame increment sample_rate * |rate| * dt reaches 2^53
 fn neut_rate(sc: &mut Scene) -> bool {
@@ -1077,7 +1062,6 @@ fn classes() -> Vec<Class> {
 	vec![
 		c(HZ_RESYNC, "", &["alloc"], neut_resync),
 		c(HZ_EASING, "", HANG, neut_easing),
-		c(HZ_SEEK, "", HANG, neut_seek),
 		c(HZ_RATE, "", HANG, neut_rate),
 		c(HZ_RATE_COST, "", HANG, neut_rate_cost),
 	]
@@ -1275,12 +1259,9 @@ impl<'a> Gen<'a> {
 			0.05 + 0.85 * self.r.unit_f64()
 		}
 	}
+	/// any seek target (the boundary stream draws +-1e300: far beyond every sound and loop region)
 	fn seek(&mut self) -> f64 {
-		let v = self.unit() * 0.02;
-		if v.abs() > 1e3 && !self.on(HZ_SEEK) {
-			return 0.02;
-		}
-		v
+		self.unit() * 0.02
 	}
 	fn dur(&mut self) -> Duration {
 		match self.r.below(if self.boundary { 7 } else { 4 }) {
@@ -1800,6 +1781,169 @@ fn listed_classes() -> BTreeSet<String> {
 }
 
 // ------------------------------------------------------------------------------------------------
+// F40 (repaired), regression against the models: a seek far beyond / below a loop region
+// ------------------------------------------------------------------------------------------------
+/// index-coded in-memory decoder (frame i is `indexed_frame(i)`)
+struct IdxDecoder {
+	n: usize,
+	pos: usize,
+	sr: u32,
+}
+impl Decoder for IdxDecoder {
+	type Error = ();
+	fn sample_rate(&self) -> u32 {
+		self.sr
+	}
+	fn num_frames(&self) -> usize {
+		self.n
+	}
+	fn decode(&mut self) -> Result<Vec<Frame>, ()> {
+		let end = (self.pos + 32).min(self.n);
+		let v = (self.pos..end).map(indexed_frame).collect();
+		self.pos = end;
+		Ok(v)
+	}
+	fn seek(&mut self, index: usize) -> Result<usize, ()> {
+		self.pos = index.min(self.n);
+		Ok(self.pos)
+	}
+}
+/// A looping STREAMING sound at rate 1; after a few callbacks `seek_to(t)` / `seek_by(t)` with a target
+/// far outside the sound.  The wrap runs on the decoder thread: before the repair that thread never
+/// came back from `Transport::seek_to` and the sound fell silent once the frame ring had drained.
+/// Monitor: the frames heard follow the loop's successor function except for ONE jump, the sound does
+/// not fall silent; model (`CSeek`): the jump lands on the frame `Transport::seek_to` computes.
+fn stream_seek_regression(s: &mut Session) {
+	use kira::info::MockInfoBuilder;
+	use kira::sound::EndPosition;
+	let (sr, n) = (48000u32, 400usize);
+	let dt = 1.0 / sr as f64;
+	// one attempt: Ok(Some((frame heard before the jump, frame it landed on))), Ok(None): no jump seen
+	let attempt = |ls: usize, le: usize, t: f64, by: bool, chunk: usize, pause_us: u64| -> (i128, Result<Option<(usize, usize)>, String>) {
+		let info = MockInfoBuilder::new().build();
+		let data = StreamingSoundData::from_decoder(IdxDecoder { n, pos: 0, sr }).loop_region(Region { start: PlaybackPosition::Samples(ls), end: EndPosition::Custom(PlaybackPosition::Samples(le)) });
+		let (mut sound, mut handle) = match data.into_sound() {
+			Ok(x) => x,
+			Err(_) => return (0, Err("into_sound() failed".into())),
+		};
+		let target: i128 = {
+			let p = if by { handle.position() + t } else { t };
+			((p * sr as f64).round() as usize) as i128
+		};
+		let succ = |x: usize| if x + 1 >= le { ls + (x + 1 - ls) % (le - ls) } else { x + 1 };
+		// let the decoder thread fill the frame ring first (an underrun skips a frame)
+		std::thread::sleep(Duration::from_millis(40));
+		let mut heard: Vec<usize> = vec![];
+		let mut jump: Option<(usize, usize)> = None;
+		let mut bad: Option<String> = None;
+		let mut after_jump = 0usize;
+		let mut sought = false;
+		let start = std::time::Instant::now();
+		let mut last_sound = std::time::Instant::now();
+		let mut round = 0;
+		while start.elapsed() < Duration::from_millis(6000) && after_jump < 200 && bad.is_none() {
+			if round == 3 {
+				if by {
+					handle.seek_by(t)
+				} else {
+					handle.seek_to(t)
+				}
+				sought = true;
+				last_sound = std::time::Instant::now();
+			}
+			round += 1;
+			let mut out = vec![Frame::ZERO; if sought { chunk } else { 16 }];
+			sound.on_start_processing();
+			sound.process(&mut out, dt, &info);
+			for f in out {
+				if f.left == 0.0 && f.right == 0.0 {
+					continue; // waiting for the decoder
+				}
+				last_sound = std::time::Instant::now();
+				let x = f.left as f64 * 65536.0 - 1.0;
+				if !(x >= 0.0 && x < n as f64 && x.fract() == 0.0) {
+					bad = Some(format!("a frame that is not a source frame was heard: ({}, {})", f.left, f.right));
+					break;
+				}
+				let x = x as usize;
+				if let Some(&prev) = heard.last() {
+					if x != succ(prev) {
+						if jump.is_some() || !sought {
+							bad = Some(format!("frame {x} heard after frame {prev} (the successor in the loop is {})", succ(prev)));
+							break;
+						}
+						jump = Some((prev, x));
+					}
+				}
+				heard.push(x);
+				if jump.is_some() {
+					after_jump += 1;
+				}
+			}
+			if sought && last_sound.elapsed() > Duration::from_millis(1500) {
+				bad = Some(format!("silent for 1.5 s after the seek ({} frames heard, last {:?}): the decoder thread does not deliver any more", heard.len(), heard.last()));
+			}
+			// the decoder thread sleeps 1 ms whenever the frame ring is full: give it time to refill, so that
+			// the ring never runs empty (an underrun skips frames, which is not what is examined here)
+			std::thread::sleep(Duration::from_micros(pause_us));
+		}
+		handle.stop(Tween::default());
+		sound.on_start_processing();
+		let mut out = vec![Frame::ZERO; 4];
+		sound.process(&mut out, 1.0, &info);
+		(target, match bad {
+			Some(w) => Err(w),
+			None => Ok(jump),
+		})
+	};
+	let mut failed = 0;
+	for (ls, le) in [(0usize, 48usize), (10, 57), (100, 400)] {
+		for (t, by) in [(1e300, false), (1e300, true), (-1e300, true), (1e12, false)] {
+			if failed >= 2 {
+				return;
+			}
+			let desc = format!("streaming sound of {n} index-coded frames at {sr} Hz, loop region {ls}..{le} frames, rate 1; callbacks; {}({t:e}); callbacks", if by { "seek_by" } else { "seek_to" });
+			// the property's own prediction of the landing frame (the model's is compared through `CSeek`)
+			let want = |prev: usize, target: i128| -> i128 {
+				let (ls, le, len) = (ls as i128, le as i128, (le - ls) as i128);
+				if target > prev as i128 {
+					if target >= le { ls + (target - ls) % len } else { target }
+				} else if target < ls {
+					le - 1 - (ls - 1 - target) % len
+				} else {
+					target
+				}
+			};
+			// (a run disturbed by an underrun of the frame ring on a busy machine is repeated at a slower pace)
+			let mut res = (0, Ok(None));
+			for (chunk, pause_us) in [(256usize, 1500u64), (64, 3000), (32, 5000)] {
+				res = attempt(ls, le, t, by, chunk, pause_us);
+				match &res.1 {
+					Ok(Some((prev, q))) if want(*prev, res.0) == *q as i128 => break,
+					Ok(None) => break,
+					Err(w) if w.starts_with("silent") => break,
+					_ => {}
+				}
+			}
+			match res {
+				(_, Err(what)) => {
+					failed += 1;
+					s.fail(desc, what, None);
+				}
+				(target, Ok(Some((prev, q)))) => {
+					if want(prev, target) != q as i128 {
+						s.fail(desc, format!("after the seek to frame index {target} (read while frame {prev} was the last one decoded) frame {q} is heard; the loop region wraps it to frame {}", want(prev, target)), None);
+					}
+					let term = format!("CSeek {prev} (Some ({ls}, {le})) true ({target}) {n}");
+					s.case("regression_F40_stream_seek_landing", term, &[0, q as i128, if q < n { 1 } else { 0 }], Some(format!("{ls}-{le}-{t:e}-{by}")));
+				}
+				// the target happened to be the loop's next frame: nothing to see
+				(_, Ok(None)) => s.eval_only("regression_F40_stream_seek_no_jump"),
+			}
+		}
+	}
+}
+// ------------------------------------------------------------------------------------------------
 // fixed witnesses of the findings (the `_refuted` theorems' inputs, replayed on the real code)
 // ------------------------------------------------------------------------------------------------
 fn base_scene(sr: u32, ibs: usize) -> Scene {
@@ -1889,10 +2033,30 @@ fn corpus() -> Vec<(Option<&'static str>, &'static str, Scene)> {
 		cb.clone(),
 	];
 	v.push((Some(HZ_EASING), "sound.set_playback_rate(2.0, Tween { duration: 1 s, easing: InPowi(-40) }) on a looping sound", s));
-	// F40: seek far beyond a loop region
-	let mut s = base_scene(48000, 64);
-	s.ops = vec![Op::Play(PlaySpec { looped: Some((0.0, 0.001)), ..plain_play(48000, 100, 1) }), Op::Cmd(CmdSpec { which: 6, seek: 1e300, ..plain_cmd() }), cb.clone()];
-	v.push((Some(HZ_SEEK), "sound.seek_to(1e300) on a sound with a loop region", s));
+	// F40 (repaired): regression scenes: a seek far beyond / below a loop region
+	for (which, seek, what) in [
+		(6u64, 1e300, "F40: sound.seek_to(1e300) on a sound with a loop region"),
+		(7, 1e300, "F40: sound.seek_by(1e300) on a sound with a loop region"),
+		(7, -1e300, "F40: sound.seek_by(-1e300) on a sound with a loop region"),
+		(6, 1e15, "F40: sound.seek_to(1e15) on a sound with a loop region"),
+	] {
+		let mut s = base_scene(48000, 64);
+		s.ops = vec![Op::Play(PlaySpec { looped: Some((0.0, 0.001)), ..plain_play(48000, 100, 1) }), cb.clone(), Op::Cmd(CmdSpec { which, seek, ..plain_cmd() }), cb.clone(), cb.clone()];
+		v.push((None, what, s));
+	}
+	// ... the same on a streaming sound (there the wrap runs on the decoder thread)
+	for (which, seek, what) in [(6u64, 1e300, "F40: streaming sound with a loop region; seek_to(1e300); callbacks"), (7, 1e300, "F40: streaming sound with a loop region; seek_by(1e300); callbacks")] {
+		let mut s = base_scene(48000, 64);
+		s.ops = vec![
+			Op::PlayStream { frames: FramesSpec { n: 400, kind: 1, seed: 1 }, ssr: 48000, packet: 32, vol: 0.0, pan: 0.0, rate: 1.0, looped: Some((0.0, 0.001)), on: None },
+			cb.clone(),
+			Op::Cmd(CmdSpec { which, seek, ..plain_cmd() }),
+			cb.clone(),
+			cb.clone(),
+			cb.clone(),
+		];
+		v.push((None, what, s));
+	}
 	// slot re-use with the default capacities: 20 rooms, each with a reverb send, a sub-track routed to it and a
 	// looping sound, entered and left again (the unused-ring of the 16 send-track slots has 17 places)
 	let mut s = base_scene(48000, 64);
@@ -2473,7 +2637,7 @@ pub fn run(args: &Args) {
 	let mut s = Session::new(
 		"C01",
 		&args.out,
-		"From Coq Require Import ZArith List. Import ListNotations. Open Scope Z_scope.\nFrom KV Require Import Base.Corr C01.Run.",
+		"From Coq Require Import ZArith List. Import ListNotations. Open Scope Z_scope.\nFrom KV Require Import Base.Corr C04.Run C01.Run.",
 		"run",
 		150,
 		"scenes (pure data, printed in full on failure): an AudioManager with random capacities / internal buffer / sample rate, main-track effects, then operations (play static sounds with drawn volume, panning, rate incl. negative, loop, slice, start position, fade-in, delayed / clock start; streaming sounds over an in-memory decoder (documented-range values only); probe sounds that finish; sub / send / spatial tracks with every built-in effect incl. nested delay feedback effects; clocks; LFOs, tweeners, probe modulators linked to parameters; listeners; commands on random handles incl. effect handles with random tweens; handle drops; device sample-rate changes between callbacks; device callbacks of 0..3b+40 frames and 1..8 channels) in three streams: well-formed (documented ranges), boundary (0, -0, denormals, +-1e300, -60 dB, zero / huge durations, empty / inverted regions, out-of-range slices, capacity 0) and directed scenarios (finish while paused, backwards through loops, churn, clock-timed starts, short tweens, finishing modulators, vanishing send tracks), slot re-use scenes (send tracks with routed sub-tracks, clocks, modulators, listeners, sub-tracks, probe sounds added, used and given up for more rounds than the storage and its unused-ring (capacity + 1) have places, capacities 1 .. defaults) and single-storage histories (send tracks / sub-tracks / main-track sounds / clocks / modulators, capacity 0..5 and the defaults: strict rounds and random fill / empty walks incl. creations on a full storage); the Renderer runs on its own audio thread; observed per callback: panic, hang (watchdog), heap allocations / frees on the audio thread, thread of every probe Drop, on_start_processing count and chunk sequence, every sample written, finite, in [-1,1], extra channels silent; model cases: output stage on a unit-gain sound, output stage on the recorded mixer bus, callback step list (allocations, frees, starts, chunk lengths), single-storage histories against C08's hand-off model (outcome of every creation and callback, reported count after every operation, which payload is destroyed during which operation and on which thread); distinct = scene seed; non-trivial = at least one callback rendered",
@@ -2517,6 +2681,16 @@ pub fn run(args: &Args) {
 			}
 		}
 	}
+	// ---- F40 (repaired): the regression cases against the models.  Static sounds: C04's cases (a looping
+	// sound, a seek far beyond / below the loop region): the callback returns, output and position are the
+	// model's.  Streaming sounds: where the decoder lands.
+	for (term, obs, desc) in crate::c04::f40_regression_cases() {
+		if obs.last() == Some(&2000) || obs.first() == Some(&2) {
+			s.fail(desc.clone(), "a callback with a seek far beyond a loop region did not return within 3 s".into(), None);
+		}
+		s.case("regression_F40_static_seek_far_beyond_loop", format!("CSnd ({term})"), &obs, Some(term.clone()));
+	}
+	stream_seek_regression(&mut s);
 	// ---- generated scenes
 	let mut callbacks = 0u64;
 	let mut samples = 0u64;
